@@ -310,6 +310,7 @@ impl FixedMethod {
                         B_OI_KAR => self.buffer.push(B_OI),
                         B_O_KAR => self.buffer.push(B_O),
                         B_OU_KAR => self.buffer.push(B_OU),
+                        B_VOCALIC_RR => self.buffer.push(B_SANSKRIT_RR),
                         _ => (),
                     }
                 } else if config.get_fixed_automatic_chandra() && rmc == B_CHANDRA {
@@ -359,6 +360,10 @@ impl FixedMethod {
                         B_OU_KAR => {
                             self.buffer.pop();
                             self.buffer.push(B_OU);
+                        }
+                        B_VOCALIC_RR => {
+                            self.buffer.pop();
+                            self.buffer.push(B_SANSKRIT_RR);
                         }
                         _ => (),
                     }
